@@ -41,6 +41,7 @@ enum {
 	FM_LEGACYSHAPE = 16384, // SSE/FO4 file that still contains NiTriShape geometry (built as Skyrim LE, then re-versioned)
 	FM_EXPORTINFO = 32768,  // 300-character export info in the header
 	FM_TEXPATH = 65536,     // a texture path that needs cleaning in texture slot 0
+	FM_VERTEXTRA = 16777216, // SSE/FO4/FO76 unskinned: full-precision BSTriShape whose vertices carry one extra float each
 	FM_STRIPPART = 8388608, // OB/FO3/SK with FM_SKIN: the skin partition stores its faces as strips (one strip per triangle), as game files do
 	FM_SEGMENTS = 4194304,  // FO4/FO76: the shape carries 2 segments, the first with 2 sub-segments (triangle 0 in sub-segment 1, triangle 1 in segment 2)
 	FM_SKIN2 = 2097152,     // with FM_SHAPE2: "Other" is skinned to ONE bone ("Bone0"), so that the file holds skin blocks with different bone counts
@@ -138,6 +139,16 @@ static inline FmModel fm_build(NifFile& nif, int ver, int feat) {
 		fm_skin(nif, m.shape, "Shape", 4, (feat & FM_BONETREE) != 0);
 	else
 		nif.AddNode("Bone0", t);
+	if ((feat & FM_VERTEXTRA) && !(feat & FM_SKIN)) {
+		if (auto bs = dynamic_cast<BSTriShape*>(m.shape)) {
+			bs->SetFullPrecision(true);
+			float f = 0.25f;
+			for (auto& v : bs->vertData) {
+				v.extra.assign(1, f);
+				f += 0.5f;
+			}
+		}
+	}
 	if ((feat & FM_STRIPPART) && (feat & FM_SKIN) && (ver == FM_OB || ver == FM_FO3 || ver == FM_SK)) {
 		auto si = nif.GetHeader().GetBlock<NiSkinInstance>(m.shape->SkinInstanceRef());
 		auto sp = si ? nif.GetHeader().GetBlock(si->skinPartitionRef) : nullptr;
